@@ -109,6 +109,50 @@ pub fn run(o: &Opts) -> Report {
         ];
         run_expect(&mut rep, o, "trailing-value-split-at-the-delimiter", cases2);
     }
+    {
+        use crate::pcorr::*;
+        // a multi-valued positional that has started collecting keeps collecting: subcommand names among its values are
+        // values; before it starts (or after a flag ended it) the same word dispatches
+        let mk3 = || { let mut c = CmdS { name: "prog".into(), ..Default::default() };
+            c.args.push(ArgS { id: "verbose".into(), short: Some('v'), action: Some("setTrue"), ..Default::default() });
+            c.args.push(ArgS { id: "files".into(), num_vals: Some((1, None)), ..Default::default() });
+            let mut push = CmdS { name: "push".into(), aliases: vec!["up".into()], ..Default::default() };
+            push.args.push(ArgS { id: "force".into(), long: Some("force".into()), action: Some("setTrue"), ..Default::default() });
+            c.subs.push(push); c };
+        let cases3: Vec<(CmdS, Vec<Vec<u8>>, Expect)> = vec![
+            (mk3(), bv(&["prog", "a.txt", "push", "b.txt"]), Box::new(|m| { want_no_sub(m)?; want_occs(m, &[], "files", &[&["a.txt", "push", "b.txt"]]) })),
+            (mk3(), bv(&["prog", "-v", "a.txt", "up"]), Box::new(|m| { want_no_sub(m)?; want_occs(m, &[], "files", &[&["a.txt", "up"]]) })),
+            (mk3(), bv(&["prog", "-v", "push", "--force"]), Box::new(|m| { want_source(m, "files", None)?; want_occs(m, &["push"], "force", &[&["true"]]) })),
+            (mk3(), bv(&["prog", "a.txt", "-v", "push"]), Box::new(|m| { want_occs(m, &[], "files", &[&["a.txt"]])?; if m.subcommand_name() == Some("push") { Ok(()) } else { Err(format!("subcommand {:?}", m.subcommand_name())) } })),
+        ];
+        run_expect(&mut rep, o, "collecting-positional-loses-a-value-to-a-subcommand", cases3);
+        // `<files>... <target> [SUBCOMMAND]`: the look-ahead that keeps the last value for <target> also stops at a subcommand name
+        let mk4 = || { let mut c = CmdS { name: "prog".into(), ..Default::default() };
+            c.args.push(ArgS { id: "files".into(), num_vals: Some((1, None)), required: true, ..Default::default() });
+            c.args.push(ArgS { id: "target".into(), required: true, ..Default::default() });
+            let mut sub = CmdS { name: "sub".into(), ..Default::default() };
+            sub.args.push(ArgS { id: "x".into(), short: Some('x'), action: Some("setTrue"), ..Default::default() });
+            c.subs.push(sub); c };
+        let sub_is = |m: &clap::ArgMatches, want: Option<&str>| if m.subcommand_name() == want { Ok(()) } else { Err(format!("subcommand {:?}, expected {want:?}", m.subcommand_name())) };
+        let cases4: Vec<(CmdS, Vec<Vec<u8>>, Expect)> = vec![
+            (mk4(), bv(&["prog", "a", "b", "sub"]), Box::new(move |m| { want_occs(m, &[], "files", &[&["a"]])?; want_occs(m, &[], "target", &[&["b"]])?; sub_is(m, Some("sub")) })),
+            (mk4(), bv(&["prog", "a", "b", "c", "sub", "-x"]), Box::new(move |m| { want_occs(m, &[], "files", &[&["a", "b"]])?; want_occs(m, &[], "target", &[&["c"]])?; sub_is(m, Some("sub")) })),
+            (mk4(), bv(&["prog", "a", "b"]), Box::new(move |m| { want_occs(m, &[], "files", &[&["a"]])?; want_occs(m, &[], "target", &[&["b"]])?; sub_is(m, None) })),
+        ];
+        run_expect(&mut rep, o, "value-given-to-another-argument", cases4);
+        // an option that is present without a value is present: its default value is for when it is absent
+        let mk5 = || { let mut c = CmdS { name: "prog".into(), ..Default::default() };
+            c.args.push(ArgS { id: "level".into(), long: Some("level".into()), short: Some('l'), action: Some("append"), num_vals: Some((0, Some(1))), default_vals: vec!["info".into()], ..Default::default() });
+            c.args.push(ArgS { id: "color".into(), long: Some("color".into()), action: Some("set"), num_vals: Some((0, Some(1))), default_vals: vec!["auto".into()], ..Default::default() });
+            c.args.push(ArgS { id: "file".into(), ..Default::default() }); c };
+        let cases5: Vec<(CmdS, Vec<Vec<u8>>, Expect)> = vec![
+            (mk5(), bv(&["prog", "--color=never", "x.txt", "--level"]), Box::new(|m| { want_source(m, "level", Some(clap::parser::ValueSource::CommandLine))?; want_occs(m, &[], "level", &[&[]])?; want_occs(m, &[], "color", &[&["never"]]) })),
+            (mk5(), bv(&["prog", "--color", "-l", "debug"]), Box::new(|m| { want_source(m, "color", Some(clap::parser::ValueSource::CommandLine))?; want_occs(m, &[], "color", &[&[]])?; want_occs(m, &[], "level", &[&["debug"]]) })),
+            (mk5(), bv(&["prog", "-l", "-l", "debug", "--color", "always"]), Box::new(|m| { want_occs(m, &[], "level", &[&[], &["debug"]])?; want_occs(m, &[], "color", &[&["always"]]) })),
+            (mk5(), bv(&["prog"]), Box::new(|m| { want_source(m, "level", Some(clap::parser::ValueSource::DefaultValue))?; want_occs(m, &[], "level", &[&["info"]]) })),
+        ];
+        run_expect(&mut rep, o, "value-invented-for-a-present-argument", cases5);
+    }
     crate::pcorr::run_generic(&mut rep, o, 0xC02);
     rep
 }
